@@ -163,6 +163,26 @@ def check_files(mtjs):
         if probs:
             bad('count-conservation', 'grammarinput.rcg', '%s [mode %r]' % ('; '.join(probs[:4]), cfg),
                 'counts are not conserved in a grammar read from its RCG file')
+    # the loaded grammar is extended: every tree is extracted once more into the objects the reader returned
+    # (dummy contexts from the file next to real ones); every count doubles
+    try:
+        for mt in mts:
+            grammar.extract(build(mt), g2, lex2)
+    except Exception as e:
+        bad('exception', 'grammar.extract', '%s: %s' % (type(e).__name__, e), 'extending a grammar read from its RCG file raised')
+        return out
+    twice = lambda c: collections.Counter({k: 2 * v for k, v in c.items()})
+    for cfg in (None, {'reordering': 'none', 'markov': None}, {'reordering': 'none', 'markov': {'v': 1, 'h': 1, 'nofanout': False}},
+                {'reordering': 'optimal', 'markov': {'v': 2, 'h': 2, 'nofanout': True}}):
+        try:
+            G = g2 if cfg is None else run_binarize(g2, cfg)
+        except Exception as e:
+            bad('exception', 'grammar.binarize', '%s: %s (mode %r)' % (type(e).__name__, e, cfg), 'binarizing the extended grammar raised')
+            continue
+        probs = conservation(G, twice(lex_tags), twice(roots), twice(nodes))
+        if probs:
+            bad('count-conservation', 'grammarinput.rcg + extract', '%s [mode %r]' % ('; '.join(probs[:4]), cfg),
+                'counts are not conserved in a grammar that was read from its RCG file and extended by extraction')
     true_tags = collections.Counter()
     for w, c in lex.items():
         for t, k in c.items():
